@@ -13,6 +13,7 @@ GROUP = {
     "uses": _camt.GROUP["uses"],
     "parts": [
         *opaque(TXN_PARTS),
+        ("text", "std_gaps_option.rs"),
         ("raw", """
 /// extract::Fragment as csv::import reads it (code and counter account come from the rewrite rules)
 pub struct RowFragment { pub cleared: bool, pub payee: Option<&'static str>, pub account: Option<&'static str>, pub code: Option<&'static str> }
@@ -61,6 +62,66 @@ pub struct RowFragment { pub cleared: bool, pub payee: Option<&'static str>, pub
         // a charge column adds a charge posting and leaves the account posting (amount, assertion) as it is
         final(txn).amount == old(txn).amount, final(txn).balance == old(txn).balance, final(txn).transferred_amount == old(txn).transferred_amount,   // @csv.import.charge_leaves_the_account_posting
         final(txn).charges@.len() == old(txn).charges@.len() + 1, final(txn).charges@.last().amount.value == value,
+{
+    {EXPR}
+}"""),
+        # ---- the conversion block: which conversion applies, which commodity it converts into, which commodity the rate prices
+        ("raw", "pub mod config2 {\nuse super::*;\n"),
+        U("config::ConversionAmountMode", "cli/src/import/config.rs", [r"pub enum ConversionAmountMode\b"]),
+        U("config::ConversionRateMode", "cli/src/import/config.rs", [r"pub enum ConversionRateMode\b"]),
+        U("config::CommodityConversionSpec", "cli/src/import/config.rs", [r"pub struct CommodityConversionSpec\b"]),
+        ("raw", "}\n"),
+        U("CommodityPair(type)", "cli/src/import/single_entry.rs", [r"pub struct CommodityPair\b"]),
+
+        ("raw", """
+/// `opt.filter(|x| !x.disabled)` (std: Some only if the predicate holds)
+pub fn keep_enabled(o: Option<&'static config2::CommodityConversionSpec>) -> (r: Option<&'static config2::CommodityConversionSpec>)
+    ensures r == (match o { Some(x) => if !x.disabled { Some(x) } else { None::<&'static config2::CommodityConversionSpec> }, None => None }),
+{
+    match o { Some(x) => if !x.disabled { Some(x) } else { None }, None => None }
+}
+"""),
+        U("callsite:csv::import.which_conversion", CSV, [r"pub fn import<R: std::io::Read>"], fn="which_conversion", no_canary=True, lifetimes="static",
+          slice=r"(let default_conversion =\s*if [^;]*;\s*let conversion = fragment\s*\.conversion[^;]*;)", slice_count=1, slice_raw=True,
+          rewrites=[("R17-free-var", "re:fragment\\s*\\.conversion\\b", "fragment_conversion", 1),
+                    # `RECV.filter(|x| !x.disabled)` -> `keep_enabled(RECV)` (Option::filter with that predicate, std definition), wherever it stands in the chain
+                    ("R34-option-filter", "re:let conversion = ([\\s\\S]*?)\\s*\\.filter\\(\\|x\\| !x\\.disabled\\)", "let conversion = keep_enabled(\\1)", 1)],
+          slice_template="""fn which_conversion<'a>(rate: Option<Decimal>, secondary_amount: Option<Decimal>, secondary_commodity: Option<&'a str>,
+    fragment_conversion: Option<&'a config2::CommodityConversionSpec>, default_conversion: &'a config2::CommodityConversionSpec) -> (conversion: Option<&'a config2::CommodityConversionSpec>)
+    ensures
+        // C16: a conversion applies when the matching rule carries one, else the account's default one - the latter only if the row has a rate,
+        //      a secondary amount and a secondary commodity; a conversion flagged `disabled` means: no conversion (it does NOT fall back to another one)
+        conversion == (match fragment_conversion {
+            Some(c) => if c.disabled { None } else { Some(c) },
+            None => if rate is Some && secondary_amount is Some && secondary_commodity is Some && !default_conversion.disabled { Some(default_conversion) } else { None },
+        }),   // @csv.import.rule_conversion_else_default_disabled_means_none
+{
+    {EXPR}
+    conversion
+}"""),
+        U("callsite:csv::import.target_commodity", CSV, [r"pub fn import<R: std::io::Read>"], fn="target_commodity", no_canary=True, lifetimes="static",
+          slice=r"if let Some\(conv\) = conversion \{[\s\S]*?let secondary_commodity = ([^;]*?)\s*\.ok_or_else\(", slice_count=1, slice_raw=True,
+          rewrites=[("R24-std-model", "conv.commodity.as_deref()", "opt_string_as_deref(&conv.commodity)", 1), ("R24-std-model", "secondary_commodity.as_deref()", "opt_string_as_deref(secondary_commodity)", 1)],
+          slice_template="""fn target_commodity<'a>(conv: &'a config2::CommodityConversionSpec, secondary_commodity: &'a Option<String>) -> (r: Option<&'a str>)
+    ensures
+        // C16: the counter amount is in the commodity the conversion names; the row's secondary-commodity column only when it names none
+        conv.commodity matches Some(c) ==> (r matches Some(x) && x@ == c@),   // @csv.import.conversion_commodity_wins_over_the_column
+        conv.commodity is None ==> (match *secondary_commodity { Some(c) => r matches Some(x) && x@ == c@, None => r is None }),
+{
+    {EXPR}
+}"""),
+        U("callsite:csv::import.rate_direction", CSV, [r"pub fn import<R: std::io::Read>"], fn="rate_direction", no_canary=True,
+          slice=r"let \(rate_key, computed_transferred\) = (match conv\.rate \{[\s\S]*?\n            \});", slice_count=1, slice_raw=True,
+          rewrites=[("R9-cow-str", "commodity.into_owned()", "string_clone(commodity)", 2), ("R24-std-model", "secondary_commodity.to_owned()", "str_to_string(secondary_commodity)", 2),
+                    ("R1-path", "config::ConversionRateMode::", "config2::ConversionRateMode::", 2)],
+          slice_template="""fn rate_direction(conv: &config2::CommodityConversionSpec, commodity: &String, secondary_commodity: &str, amount: Decimal, rate: Decimal) -> (r: (CommodityPair, Decimal))
+    requires rate.val() != 0real,   // NOT established by csv::import: a zero `rate` cell with `price_of_secondary` divides by zero (import is outside C06's list of commands; noted in DESIGN)
+    ensures
+        // C16: the stated rate is attached to the commodity it prices (CommodityPair.target; Txn::add_rate records `1 target = rate source`):
+        //      price_of_secondary: 1 secondary = rate primary, the counter amount is amount / rate;
+        //      price_of_primary:   1 primary = rate secondary, the counter amount is amount * rate
+        conv.rate is PriceOfSecondary ==> (r.0.target@ == secondary_commodity@ && r.0.source@ == commodity@ && r.1.val() * rate.val() == amount.val()),   // @csv.import.price_of_secondary_prices_the_secondary_commodity
+        conv.rate is PriceOfPrimary ==> (r.0.target@ == commodity@ && r.0.source@ == secondary_commodity@ && r.1.val() == amount.val() * rate.val()),       // @csv.import.price_of_primary_prices_the_primary_commodity
 {
     {EXPR}
 }"""),
